@@ -244,14 +244,15 @@ ares_status_t ares_conn_flush(ares_conn_t *conn)
     return ARES_EFORMERR;
   }
 
-  if (conn->flags & ARES_CONN_FLAG_TFO_INITIAL) {
-    tfo = ARES_TRUE;
-  }
-
   do {
     if (ares_buf_len(conn->out_buf) == 0) {
       status = ARES_SUCCESS;
       goto done;
+    }
+
+    /* This flush performs the initial write of a TFO connection */
+    if (conn->flags & ARES_CONN_FLAG_TFO_INITIAL) {
+      tfo = ARES_TRUE;
     }
 
     if (conn->flags & ARES_CONN_FLAG_TCP) {
@@ -307,8 +308,11 @@ done:
      * be notified of when a connection is actually established.  That stays
      * true for any later flush (e.g. one that finds nothing left to write)
      * until the connection is known to be established, otherwise queries
-     * queued meanwhile are never written. */
+     * queued meanwhile are never written.  While the initial write has not
+     * happened at all there is no connection attempt to wait for, and a
+     * socket that is reported writable would be polled in a busy loop. */
     if (tfo || (conn->flags & ARES_CONN_FLAG_TFO &&
+                !(conn->flags & ARES_CONN_FLAG_TFO_INITIAL) &&
                 !(conn->state_flags & ARES_CONN_STATE_CONNECTED))) {
       flags |= ARES_CONN_STATE_WRITE;
     }
